@@ -116,6 +116,12 @@ def run(chk):
     from . import c07 as _c07
     _c07.chunk_size_hex(chk, prog)
     shared.eof_is_error(chk, prog, "R1.eof_is_error", r"^humphrey::http::response::Response::from_stream$", "upstream response head")
+    # a valid upstream answer of any version and status is relayed with its body: framing from the headers alone, no literal version test
+    shared.response_framing_by_headers(chk, prog, "R1.framing")
+    # "the upstream receives the request unchanged": every header name the parser recognises is written back under that name
+    # (the header-name table rule of C02: parse and print tables are inverse)
+    from . import c02 as _c02
+    _c02.header_table(chk, prog, "A")
     # ---- R2 bounded wait
     conn = [blk for blk, t in bi.calls_to(r"TcpStream::connect_timeout$")]
     plain = [blk for blk, t in bi.calls_to(r"TcpStream::connect$")]
